@@ -55,6 +55,26 @@ def run(ctx):
                 continue
             c = dict(c, records=full, appended=True)
         c["data"] = w[1].getvalue()
+        relayed = len(keep) < 4 or (len(repr(c["raw"])) + len(c["records"])) % 5 == 2
+        if relayed and c["records"]:
+            # the file is produced by a RELAY: a consumer takes the blocks of the file just written from block_reader, looks at the first
+            # 0, 1, 2, ... records of each, and hands every block to Writer.write_block of a second container writer (another codec and
+            # marker); that writer's file must have the prescribed layout and carry the same records, whatever the consumer looked at
+            try:
+                out2, codec2 = io.BytesIO(), rng.choice(K.CODECS)
+                w2 = fastavro.write.Writer(out2, c["raw"] if c["use_raw"] else c["parsed"], codec=codec2,
+                                           sync_marker=bytes(rng.randrange(256) for _ in range(16)))
+                for bi, blk in enumerate(fastavro.block_reader(io.BytesIO(c["data"]))):
+                    it = iter(blk)
+                    for _ in range(1 + bi % 3 if len(keep) < 4 else bi % 3):
+                        next(it, None)
+                    w2.write_block(blk)
+                w2.flush()
+                c = dict(c, data=out2.getvalue(), codec=codec2, relayed=True)
+            except Exception as e:
+                ctx.violation("corr:independent-parse", dict(c04.case_json(c), relayed=True), impl="relay raised " + type(e).__name__ + ": " + str(e)[:200],
+                              model="relays", signature="C05:writer:write_block-relay-raises", found_input=True)
+                continue
         try:
             c["null"] = K.to_null(c["data"], c["codec"])
         except Exception:
